@@ -232,14 +232,27 @@ func runC04(c *mon.Ctx) {
 				}
 			}
 		}
+		// one of the top-level assertions may travel encrypted (its own signature, if any, inside the ciphertext), next to
+		// plain ones: decrypted assertions end up after the plain ones, so indicators are compared by ID
+		encIdx := -1
+		if !sharedID && r.IntN(3) == 0 {
+			encIdx = r.IntN(len(tops))
+			x, eerr := sim.EncryptedAssertionXML(&sim.EncSpec{DataAlg: pick(r, sim.DataAlgs), KeyAlg: sim.RSAOAEP, To: w.SPEnc}, []byte(sim.ElementString(tops[encIdx])), nil, nil)
+			if ed, perr := sim.ParseDoc(x); eerr == nil && perr == nil {
+				sim.ReplaceChild(tops[encIdx], ed.Root().Copy())
+			} else {
+				encIdx = -1
+			}
+		}
 		if err := sim.SignElementInDoc(d.Root(), randSigSpec(r, signer, true, false)); err != nil {
 			cs.Inconclusive("simulator-error")
 			continue
 		}
 		doc := sim.DocString(d)
-		cs.Desc("tops=%d host=%d nested=%d ownSig=%v sharedID=%v signer=%s", len(tops), host, nestedN, ownSig, sharedID, signer.Key.Name)
+		cs.Desc("tops=%d host=%d nested=%d ownSig=%v sharedID=%v encrypted=%d signer=%s", len(tops), host, nestedN, ownSig, sharedID, encIdx, signer.Key.Name)
 		cs.Input([]byte(doc))
 		sp, _, _ := NewSP(w.Now, signer)
+		sp.SPKeyStore = &RSAKeyStore{C: w.SPEnc}
 		sp.AllowMissingAttributes = true
 		var resp *types.Response
 		var verr error
@@ -251,6 +264,28 @@ func runC04(c *mon.Ctx) {
 		if verr != nil {
 			cs.Outcome("rejected")
 			continue // Advice content is outside what the properties promise to accept
+		}
+		if encIdx >= 0 {
+			cs.Nontrivial(fmt.Sprintf("%x", mon.Hash64(doc)))
+			cs.Outcome("accepted-mixed")
+			own := map[string]bool{}
+			for i, t := range tops {
+				own[t.SelectAttrValue("ID", "")] = ownSig[i]
+			}
+			if len(resp.Assertions) != len(tops) {
+				cs.Violation("assertion-count", "%d top-level assertions were signed, %d returned", len(tops), len(resp.Assertions))
+				continue
+			}
+			for i := range resp.Assertions {
+				if has, known := own[resp.Assertions[i].ID]; !known {
+					cs.Violation("assertion-order-or-identity", "returned assertion %d has ID %s, which no top-level assertion of the signed Response has", i, resp.Assertions[i].ID)
+					break
+				} else if resp.Assertions[i].SignatureValidated && !has {
+					cs.Violation("assertion-flag-overstated", "assertion %s (returned at %d; assertion %d travelled encrypted) is marked validated although that element carries no signature of its own (own signatures by position: %v)", resp.Assertions[i].ID, i, encIdx, ownSig)
+					break
+				}
+			}
+			continue
 		}
 		cs.Nontrivial(fmt.Sprintf("%x", mon.Hash64(doc)))
 		cs.Outcome("accepted")
